@@ -147,6 +147,9 @@ def check(ctx: Ctx) -> None:
     # two commits validated against one base (an ETag that belongs to an unvalidated version) share a sequence number
     from .c08 import r1 as c08_r1
     ctx.shared(c08_r1, "C08.R1", "C15.R13", "the conditional pointer write is keyed to the validated version")
+    from .c02 import r6 as c02_r6
+    ctx.shared(c02_r6, "C02.R6", "C15.R18", "an index / lookup remembered on a metadata object outlives the list it was built from: after "
+               "the copy-and-append of a commit the current snapshot is 'not found' and retention drops it")
     from .c19 import polling_break_double_check
     polling_break_double_check(ctx, "C15.R14")
     delete_filters_every_manifest(ctx)
